@@ -334,3 +334,14 @@ package haproxy
 //@   loop 1 step computed: calls(NeedACL) >= $head(calls(NeedACL)) + 1
 //@   loop 2 invariant kept: calls(NeedACL) >= $headof(1, calls(NeedACL)) + 1
 //@ end
+
+// C12 / C05 — the crt-lists of the TCP services are (re)written on every update
+// that reaches this point: every port with TLS is visited, whatever the change
+// markers say (they may have been cleared by a failed earlier attempt)
+//@ count CrtOut = (*template.Config).WriteOutput
+//@ count TCPItems = (*types.TCPServices).Items
+//@ func (*instance).writeCrtLists
+//@   props C12 C05
+//@   loop 1 step written: len(tcpPort.TLS) > 0 ==> calls(CrtOut) == $head(calls(CrtOut)) + 1
+//@   lemma reached: result == nil ==> calls(TCPItems) == 1
+//@ end
